@@ -298,6 +298,13 @@ class Gen:
                     # (c) full, drained by the backend, then filled again
                     L = cap - 36 - t2 - d
                     if L >= 0: s.add(fe, sig, [PRE, fill_op(cap - 36), DRAIN, fill_op(L), log_op(sig, fam, v2), DRAIN], 'fit-after-drain:%+d' % d)
+                # (c') a little traffic, drained by the backend, then one record in the top of the (empty) buffer:
+                #      everything consumed must have been handed back to the producer
+                for a in (0, 1, s.rng.randint(2, 300)):
+                    for d in (0, 1, s.rng.randint(2, max(2, cap // 16))):
+                        s.add(fe, sig, [PRE, fill_op(a), DRAIN, fill_op(cap - 36 - d), DRAIN, log_op(sig, fam, v1)], 'top-after-small-drain:%d' % d)
+                if t1 + 36 < cap // 2:
+                    s.add(fe, sig, [log_op(sig, fam, v1), DRAIN, fill_op(cap - 36 - s.rng.randint(0, 40)), DRAIN, log_op(sig, fam, v2)], 'top-after-statement-drain')
                 if fe == 1:
                     for d in (-1, 0, 1):
                         # (d) grown to 4096 by a 3000-byte record, drained, shrunk to 1024, filled, statement
@@ -397,7 +404,9 @@ def make_monitor(side):
        (B) a deferred-format user formatter (and format_as of an enum) never runs on the calling thread;
        (C) without a direct-format type in the statement no user formatter runs on the calling thread at all;
        (D) the size cache never gives back capacity (iv_clear_keeps_capacity, re-exported for C11) and a statement
-           whose variable-length items fit the capacity the cache already has does not allocate."""
+           whose variable-length items fit the capacity the cache already has does not allocate;
+       (E) directly after a backend drain a filler record whose encoded size (payload + 36) is at most the current
+           buffer's capacity stays in that buffer and allocates nothing (all consumed bytes were handed back)."""
     def monitor(case, impl_line):
         if impl_line.startswith('CRASH') or impl_line.startswith('HANG') or impl_line == 'NOOUTPUT':
             return 'implementation did not survive the case: ' + impl_line
@@ -425,6 +434,10 @@ def make_monitor(side):
                         return '%s: steady-state call that fitted the current buffer (listed argument kinds, %d variable-length items) allocated on the calling thread [%s]' % (what, nvar, entries(side, c['cid'], k))
                     if nvar <= prev['ivcap']:
                         return '%s: the size cache already had capacity %d but a statement with %d variable-length items allocated again on the calling thread [%s]' % (what, prev['ivcap'], nvar, entries(side, c['cid'], k))
+            if (steady and o['kind'] == 2 and k > 0 and c['ops'][k - 1]['kind'] == 4 and o['x'] + 36 <= prev['cap']
+                    and (ob['heap'] or ob['mmap'] or ob['cap'] != prev['cap'])):
+                return ('%s: the backend had drained the queue and the %d-byte record fits the current buffer (%d bytes), yet the call %s on the calling thread [%s]'
+                        % (what, o['x'] + 36, prev['cap'], 'moved to a new buffer of %d bytes' % ob['cap'] if ob['cap'] != prev['cap'] else 'allocated', entries(side, c['cid'], k)))
             if steady and ob['ivcap'] < prev['ivcap']:
                 return '%s: the size cache gave back capacity (%d -> %d): the next long statement allocates again' % (what, prev['ivcap'], ob['ivcap'])
             prev = ob
